@@ -148,7 +148,7 @@ structure Recv where
 
 structure Obs where
   fresh  : Recv                 -- zero-valued receivers
-  reused : Recv                 -- receivers that decoded `prev` before
+  reused : Recv                 -- receivers that decoded the earlier inputs before
   deriving DecidableEq, Repr
 
 /-- pointer offsets as the harness reports them: an empty slice has no meaningful address -/
@@ -176,21 +176,18 @@ def modelRecv (rh : Header) (rp : Packet) (buf : Bytes) : Recv :=
   { hun := ((hdrUnmarshalL rh buf).map mkHdrOk).coarse
     pun := ((pktUnmarshalL rp buf).map mkPktOk).coarse }
 
-/-- receivers after `prev` was decoded into them (a failed decode leaves a partly written receiver;
-    `c02_reuse` shows that nothing observable depends on the receiver at all) -/
-def usedHeader (prev : Option Bytes) : Header :=
-  match prev with
-  | none => {}
-  | some b => match hdrUnmarshal {} b with | .ok (h, _) => h | _ => {}
+/-- receivers after the earlier inputs `prevs` were decoded into them, one after the other (a
+    failed decode leaves a partly written receiver, modelled as "unchanged"; `c02_reuse` shows that
+    nothing observable depends on the receiver at all) -/
+def usedHeader (prevs : List Bytes) : Header :=
+  prevs.foldl (fun r b => match hdrUnmarshal r b with | .ok (h, _) => h | _ => r) {}
 
-def usedPacket (prev : Option Bytes) : Packet :=
-  match prev with
-  | none => {}
-  | some b => match pktUnmarshal {} b with | .ok p => p | _ => {}
+def usedPacket (prevs : List Bytes) : Packet :=
+  prevs.foldl (fun r b => match pktUnmarshal r b with | .ok p => p | _ => r) {}
 
-def modelObs (buf : Bytes) (prev : Option Bytes) : Obs :=
+def modelObs (buf : Bytes) (prevs : List Bytes) : Obs :=
   { fresh := modelRecv {} {} buf
-    reused := modelRecv (usedHeader prev) (usedPacket prev) buf }
+    reused := modelRecv (usedHeader prevs) (usedPacket prevs) buf }
 
 /-! ### the predicate -/
 
@@ -233,6 +230,6 @@ def recvHolds (buf : Bytes) (r : Recv) : Bool := hdrHolds buf r.hun && pktHolds 
     exactly the same (canonical) result -/
 def holds (buf : Bytes) (o : Obs) : Bool := recvHolds buf o.fresh && o.reused == o.fresh
 
-def pred (buf : Bytes) (_prev : Option Bytes) (o : Obs) : Bool := holds buf o
+def pred (buf : Bytes) (_prevs : List Bytes) (o : Obs) : Bool := holds buf o
 
 end Rtp.Pred.C02
